@@ -201,24 +201,24 @@ Definition vadd (x : ist) (v : vset) : vset :=
   let k := hash x in
   match PositiveMap.find k v with Some l => PositiveMap.add k (x :: l) v | None => PositiveMap.add k [x] v end.
 
-Definition expand1 (acc : vset * list ist) (x : ist) : vset * list ist :=
+(* worklist exploration: pop a state, add its unseen successors to the set and to the worklist *)
+Definition succs (x : ist) (acc : vset * list ist) : vset * list ist :=
   fold_left (fun (a : vset * list ist) l =>
                let y := istep x l in
                if vmem y (fst a) then a else (vadd y (fst a), y :: snd a)) (sigma_at x) acc.
-Fixpoint rounds (fuel : nat) (v : vset) (frontier : list ist) : option vset :=
-  match fuel with
-  | O => None
-  | S f =>
-    match frontier with
-    | [] => Some v
-    | _ => let '(v', fr') := fold_left expand1 frontier (v, []) in rounds f v' fr'
+Fixpoint bfs (fuel : nat) (v : vset) (todo : list ist) : option vset :=
+  match todo with
+  | [] => Some v
+  | x :: todo' =>
+    match fuel with
+    | O => None
+    | S f => let '(v', todo'') := succs x (v, todo') in bfs f v' todo''
     end
   end.
 Definition explore_set (rc0 : Z) : option vset :=
-  let x0 := iinit rc0 in rounds 3000 (vadd x0 (PositiveMap.empty _)) [x0].
+  let x0 := iinit rc0 in bfs (400 * 400) (vadd x0 (PositiveMap.empty _)) [x0].
 
 Definition all_states (v : vset) : list ist := flat_map snd (PositiveMap.elements v).
-Definition closed (v : vset) : bool := forallb (fun x => forallb (fun l => vmem (istep x l) v) (sigma_at x)) (all_states v).
 Definition all_good (P : ist -> bool) (v : vset) : bool := forallb P (all_states v).
 
 Definition In_v (x : ist) (v : vset) : Prop := exists k l, PositiveMap.find k v = Some l /\ In x l.
@@ -233,17 +233,84 @@ Proof.
   intros (k & l & Hf & Hi). unfold all_states. apply in_flat_map. exists (k, l). split; [|exact Hi].
   now apply PositiveMap.elements_correct.
 Qed.
+Lemma In_v_vadd_same x v : In_v x (vadd x v).
+Proof.
+  unfold vadd. destruct (PositiveMap.find (hash x) v) as [l|] eqn:E.
+  - exists (hash x), (x :: l). split; [apply PositiveMap.gss|now left].
+  - exists (hash x), [x]. split; [apply PositiveMap.gss|now left].
+Qed.
+Lemma In_v_vadd_mono x y v : In_v x v -> In_v x (vadd y v).
+Proof.
+  intros (k & l & Hf & Hi). unfold vadd. destruct (Pos.eq_dec k (hash y)) as [->|Hk].
+  - rewrite Hf. exists (hash y), (y :: l). split; [apply PositiveMap.gss|now right].
+  - destruct (PositiveMap.find (hash y) v); exists k, l; (split; [rewrite PositiveMap.gso; auto|exact Hi]).
+Qed.
 
-Lemma closed_step v : closed v = true -> forall x, In_v x v -> forall l, allowed l -> In_v (istep x l) v.
+(* every state of the set is still on the worklist or has all its successors in the set *)
+Definition closed_at (x : ist) (v : vset) : Prop := forall l, In l (sigma_at x) -> In_v (istep x l) v.
+Definition winv (v : vset) (todo : list ist) : Prop :=
+  (forall x, In x todo -> In_v x v) /\ (forall x, In_v x v -> In x todo \/ closed_at x v).
+
+(* [succs] on a prefix of the labels: the set only grows, new states go to the worklist, the handled labels are covered *)
+Lemma succs_spec x : forall ls v todo v' todo',
+  fold_left (fun (a : vset * list ist) l =>
+               let y := istep x l in if vmem y (fst a) then a else (vadd y (fst a), y :: snd a)) ls (v, todo) = (v', todo') ->
+  (forall z, In_v z v -> In_v z v') /\
+  (forall z, In z todo -> In z todo') /\
+  (forall z, In z todo' -> In z todo \/ In_v z v') /\
+  (forall z, In_v z v' -> In_v z v \/ In z todo') /\
+  (forall l, In l ls -> In_v (istep x l) v').
+Proof.
+  induction ls as [|l ls IH]; intros v todo v' todo' H; cbn [fold_left] in H.
+  - inversion H; subst. repeat split; auto. intros l [].
+  - cbn [fst snd] in H. destruct (vmem (istep x l) v) eqn:E.
+    + destruct (IH _ _ _ _ H) as (A & B & C & D & F). repeat split; auto.
+      intros l0 [<-|Hl]; auto. apply A. now apply vmem_In.
+    + destruct (IH _ _ _ _ H) as (A & B & C & D & F). repeat split.
+      * intros z Hz. apply A. now apply In_v_vadd_mono.
+      * intros z Hz. apply B. now right.
+      * intros z Hz. destruct (C z Hz) as [[<-|Hz']|Hz']; auto. right. apply A. apply In_v_vadd_same.
+      * intros z Hz. destruct (D z Hz) as [Hz'|Hz']; auto.
+        destruct Hz' as (k & l0 & Hf & Hi). unfold vadd in Hf.
+        destruct (Pos.eq_dec k (hash (istep x l))) as [->|Hk].
+        -- destruct (PositiveMap.find (hash (istep x l)) v) as [l1|] eqn:E1; rewrite PositiveMap.gss in Hf; inversion Hf; subst l0.
+           ++ destruct Hi as [<-|Hi]; [right; apply B; now left|left; exists (hash (istep x l)), l1; auto].
+           ++ destruct Hi as [<-|[]]. right. apply B. now left.
+        -- destruct (PositiveMap.find (hash (istep x l)) v); rewrite PositiveMap.gso in Hf; auto; left; exists k, l0; auto.
+      * intros l0 [<-|Hl]; auto. apply A. apply In_v_vadd_same.
+Qed.
+
+Lemma bfs_closed : forall fuel v todo v', winv v todo -> bfs fuel v todo = Some v' ->
+  (forall x, In_v x v -> In_v x v') /\ (forall x, In_v x v' -> closed_at x v').
+Proof.
+  induction fuel as [|f IH]; intros v todo v' [W1 W2] H.
+  - destruct todo as [|x todo]; [|discriminate]. inversion H; subst. split; auto.
+    intros x Hx. destruct (W2 x Hx) as [[]|Hc]; auto.
+  - destruct todo as [|x todo]; cbn [bfs] in H.
+    + inversion H; subst. split; auto. intros x Hx. destruct (W2 x Hx) as [[]|Hc]; auto.
+    + destruct (succs x (v, todo)) as [v1 todo1] eqn:E. unfold succs in E.
+      destruct (succs_spec x _ _ _ _ _ E) as (A & B & C & D & F).
+      assert (Wn : winv v1 todo1).
+      { split.
+        - intros z Hz. destruct (C z Hz) as [Hz'|Hz']; auto. apply A. apply W1. now right.
+        - intros z Hz. destruct (D z Hz) as [Hz'|Hz']; [|now left].
+          destruct (W2 z Hz') as [[<-|Hz'']|Hc].
+          + right. intros l Hl. now apply F.
+          + left. now apply B.
+          + right. intros l Hl. apply A. now apply Hc. }
+      destruct (IH _ _ _ Wn H) as [M K]. split; auto.
+Qed.
+
+Lemma closed_step v : (forall x, In_v x v -> closed_at x v) -> forall x, In_v x v -> forall l, allowed l -> In_v (istep x l) v.
 Proof.
   intros Hc x Hx l Hl. destruct (cover x l Hl) as [Hin | Hid].
-  - unfold closed in Hc. rewrite forallb_forall in Hc.
-    specialize (Hc x (In_v_all _ _ Hx)). rewrite forallb_forall in Hc. apply vmem_In. now apply Hc.
+  - now apply Hc.
   - unfold istep. destruct (do_step src c (i_st x) l) as [s' o]. destruct Hid as (-> & -> & -> & ->).
     cbn [gs_outs fold_left]. rewrite !orb_false_r. destruct x; exact Hx.
 Qed.
 
-Lemma closed_run v : closed v = true -> forall sched x, In_v x v -> Forall allowed sched -> In_v (fold_left istep sched x) v.
+Lemma closed_run v : (forall x, In_v x v -> closed_at x v) ->
+  forall sched x, In_v x v -> Forall allowed sched -> In_v (fold_left istep sched x) v.
 Proof.
   intros Hc sched; induction sched as [|l sched IH]; intros x Hx Hs; cbn; auto.
   inversion Hs; subst. apply IH; auto. now apply closed_step.
@@ -252,16 +319,24 @@ Qed.
 (* the check and its soundness *)
 Definition reach_check (rc0 : Z) (P : ist -> bool) : bool :=
   match explore_set rc0 with
-  | Some v => vmem (iinit rc0) v && closed v && all_good P v
+  | Some v => all_good P v
   | None => false
   end.
 
 Theorem reach_sound rc0 P : reach_check rc0 P = true ->
   forall sched, Forall allowed sched -> P (irun rc0 sched) = true.
 Proof.
-  unfold reach_check. destruct (explore_set rc0) as [v|]; [|discriminate].
-  intros H sched Hs. apply andb_prop in H as [H Hg]. apply andb_prop in H as [Hi Hc].
-  pose proof (closed_run v Hc sched (iinit rc0) (vmem_In _ _ Hi) Hs) as Hr.
+  unfold reach_check, explore_set. destruct (bfs (400 * 400) (vadd (iinit rc0) (PositiveMap.empty _)) [iinit rc0]) as [v|] eqn:E; [|discriminate].
+  intros Hg sched Hs.
+  assert (W : winv (vadd (iinit rc0) (PositiveMap.empty _)) [iinit rc0]).
+  { split.
+    - intros x [<-|[]]. apply In_v_vadd_same.
+    - intros x (k & l & Hf & Hi). left. unfold vadd in Hf. rewrite PositiveMap.gempty in Hf.
+      destruct (Pos.eq_dec k (hash (iinit rc0))) as [->|Hk].
+      + rewrite PositiveMap.gss in Hf. inversion Hf; subst l. destruct Hi as [<-|[]]. now left.
+      + rewrite PositiveMap.gso, PositiveMap.gempty in Hf; auto. discriminate. }
+  destruct (bfs_closed _ _ _ _ W E) as [M K].
+  pose proof (closed_run v K sched (iinit rc0) (M _ (In_v_vadd_same _ _)) Hs) as Hr.
   unfold all_good in Hg. rewrite forallb_forall in Hg. apply Hg. now apply In_v_all.
 Qed.
 
